@@ -18,6 +18,10 @@ def fill_script(rng, cfg, maxsz, t, sq, cap=135):
     R.new(*new)
     lines = ["cfg %d %d %d %d" % (cfg + (maxsz,)), "new %d %d %d %d %d %d" % new]
     base = rng.below(A.max_ioa(cfg) - 300)
+    if sq and cfg[2] == 3 and rng.chance(1, 2):      # consecutive addresses above / across the 16-bit boundary
+        base = rng.choice([0x10000 - rng.range(0, 3), 0x10000 + rng.below(0x20), rng.range(0x10000, A.max_ioa(cfg) - 300)])
+    elif sq and cfg[2] == 2 and rng.chance(1, 3):
+        base = rng.choice([0x100 - rng.range(0, 3), 0x100 + rng.below(0x20)])
     refused = 0
     j = 0
     while refused < 2 and j < cap:
@@ -31,6 +35,9 @@ def fill_script(rng, cfg, maxsz, t, sq, cap=135):
     # a different type, a break of address continuity
     other = S.TYPES[rng.choice([x for x in S.SUPPORTED if x != t.tid and S.TYPES[x].std_len is not None and S.TYPES[x].std_len <= 2])]
     lines.append(A.add_line(other, 0 if other.noioa else rng.below(A.max_ioa(cfg)), A.gen_args(rng, other))[0])
+    if sq and not t.noioa and not other.noioa:
+        # the different type at exactly the address that would continue the sequence
+        lines.append(A.add_line(other, base + R.count(), A.gen_args(rng, other))[0])
     if sq and not t.noioa:
         lines.append(A.add_line(t, base + R.count() + 1 + rng.below(5), A.gen_args(rng, t))[0])
     lines.append("clone")
@@ -50,7 +57,7 @@ def gen_scripts(ck, rng, quick):
     per = 2 if quick else 8
     for maxsz in range(4, 255):
         for r in range(per):
-            cfg = A.CFGS[(maxsz + 5 * r + k) % 12]
+            cfg = rng.choice(A.CFGS)            # (a fixed rotation here once tied the address size to the type layout)
             if maxsz < A.hdr_len(cfg):
                 continue
             t = S.TYPES[S.SUPPORTED[k % len(S.SUPPORTED)]]
